@@ -150,6 +150,19 @@ Theorem C16_abf_site_incremental_eq_batch_3d : forall (T : Type) (O : NumOps T) 
 Proof. intros T O sc sm sh same st0 pre l. exact (abf_site_incremental_eq_batch3 O sc sm sh same st0 pre l). Qed.
 Print Assumptions C16_abf_site_incremental_eq_batch_3d.
 
+(* smoothed gradients inside the divergence: the gradient that every stencil reads from a bin is the accumulated sum
+   times out_fact(count) (C16_1d_smoothed_value gives the ramp); in particular a bin at or below minSamples reads as zero
+   whatever its neighbours hold, so that under-sampled bins next to well-sampled ones do not leak noise *)
+Theorem C16_smoothed_gradient_below_min_is_zero_2d : forall (sc : smooth_cfg) (sh : shape2 (T:=R)) (st : state2 (T:=R)) (ix : Z * Z),
+  s_has_samples sc = true -> (gcnt2 st (snd (wde2 sh ix)) <= s_min sc)%Z -> gval2 Rops sc true sh st ix = (0%R, 0%R).
+Proof. exact gval2_below_min. Qed.
+Print Assumptions C16_smoothed_gradient_below_min_is_zero_2d.
+
+Theorem C16_smoothed_gradient_below_min_is_zero_3d : forall (sc : smooth_cfg) (sh : shape3 (T:=R)) (st : state3 (T:=R)) (ix : Z * Z * Z),
+  s_has_samples sc = true -> (gcnt3 st (snd (wde3 sh ix)) <= s_min sc)%Z -> gval3 Rops sc true sh st ix = (0%R, 0%R, 0%R).
+Proof. exact gval3_below_min. Qed.
+Print Assumptions C16_smoothed_gradient_below_min_is_zero_3d.
+
 (* what "batch" means: set_div stores at every PMF point the divergence of the current gradient data *)
 Theorem C16_set_div_is_divergence_2d : forall (T : Type) (O : NumOps T) (sc : smooth_cfg) (sm : bool) (sh : shape2 (T:=T))
     (st : state2 (T:=T)) (p : Z * Z),
@@ -287,6 +300,46 @@ Print Assumptions C16_atimes_loops_eq_stencil_2d.
 Example C16_example_loops : (2 <= npmf (px sh22) (nxg sh22))%Z /\ (2 <= npmf (py sh22) (nyg sh22))%Z.
 Proof. split; vm_compute; discriminate. Qed.
 
+(* Consistency (the algebraic content of "second order"): when the gradient data are the gradient of ANY polynomial U of
+   total degree <= 3 evaluated at the bin centres, the divergence at every interior PMF node equals the discrete Laplacian
+   of the samples of U at the nodes EXACTLY - anisotropic widths, any origin, periodic or not.  Hence for a C^4 surface
+   the local truncation error of the discrete Poisson problem is a fourth-order Taylor remainder, O(w^2).
+   (Not proved: the stability constant that turns this into a convergence rate, and the boundary nodes; the check measures
+   the observed order, 2.0-2.2.) *)
+Theorem C16_scheme_exact_on_cubics_2d : forall (sc : smooth_cfg) (sm : bool) (sh : shape2 (T:=R)) (st : state2 (T:=R))
+    (x0 y0 c00 c10 c01 c20 c11 c02 c30 c21 c12 c03 : R) (i j : Z),
+  (1 <= i <= npmf (px sh) (nxg sh) - 2)%Z -> (1 <= j <= npmf (py sh) (nyg sh) - 2)%Z -> wx sh <> 0%R -> wy sh <> 0%R ->
+  (forall a b, (a = i - 1 \/ a = i)%Z -> (b = j - 1 \/ b = j)%Z ->
+     gval2 Rops sc sm sh st (a, b) =
+     (cubUx c10 c20 c11 c30 c21 c12 (cenx sh x0 a) (ceny sh y0 b), cubUy c01 c11 c02 c21 c12 c03 (cenx sh x0 a) (ceny sh y0 b))) ->
+  div_value2 Rops sc sm sh st (i, j) =
+  atimes2 Rops sh (fun p => cubU c00 c10 c01 c20 c11 c02 c30 c21 c12 c03 (nodx sh x0 (fst p)) (nody sh y0 (snd p))) (i, j).
+Proof. intros. apply scheme_exact_on_cubics2; assumption. Qed.
+Print Assumptions C16_scheme_exact_on_cubics_2d.
+
+Theorem C16_scheme_exact_on_cubics_3d : forall (sc : smooth_cfg) (sm : bool) (sh : shape3 (T:=R)) (st : state3 (T:=R))
+    (x0 y0 z0 k000 k001 k002 k003 k010 k011 k012 k020 k021 k030 k100 k101 k102 k110 k111 k120 k200 k201 k210 k300 : R) (i j k : Z),
+  (1 <= i <= npmf (qx sh) (mxg sh) - 2)%Z -> (1 <= j <= npmf (qy sh) (myg sh) - 2)%Z -> (1 <= k <= npmf (qz sh) (mzg sh) - 2)%Z ->
+  vx sh <> 0%R -> vy sh <> 0%R -> vz sh <> 0%R ->
+  (forall a b c, (a = i - 1 \/ a = i)%Z -> (b = j - 1 \/ b = j)%Z -> (c = k - 1 \/ c = k)%Z ->
+     gval3 Rops sc sm sh st (a, b, c) =
+     (cub3x k100 k101 k102 k110 k111 k120 k200 k201 k210 k300 (cen3x sh x0 a) (cen3y sh y0 b) (cen3z sh z0 c),
+      cub3y k010 k011 k012 k020 k021 k030 k110 k111 k120 k210 (cen3x sh x0 a) (cen3y sh y0 b) (cen3z sh z0 c),
+      cub3z k001 k002 k003 k011 k012 k021 k101 k102 k111 k201 (cen3x sh x0 a) (cen3y sh y0 b) (cen3z sh z0 c))) ->
+  div_value3 Rops sc sm sh st (i, j, k) =
+  atimes3 Rops sh (fun p => cub3 k000 k001 k002 k003 k010 k011 k012 k020 k021 k030 k100 k101 k102 k110 k111 k120 k200 k201 k210 k300
+                             (nod3x sh x0 (fst (fst p))) (nod3y sh y0 (snd (fst p))) (nod3z sh z0 (snd p))) (i, j, k).
+Proof. intros. apply scheme_exact_on_cubics3; assumption. Qed.
+Print Assumptions C16_scheme_exact_on_cubics_3d.
+
+(* an interior node exists as soon as a dimension has 2 non-periodic bins (3 nodes), and the premise on the gradient data
+   holds e.g. for the zero polynomial on the empty grids *)
+Example C16_example_interior : (1 <= 1 <= npmf false 2 - 2)%Z /\
+  gval2 Rops (mkSmooth true 0 1) false (mkShape2 false false 2 2 1%R 1%R) (init2 Rops) (0, 0)%Z = (0%R, 0%R).
+Proof.
+  split; [vm_compute; split; discriminate|]. unfold gval2, get_grad2, init2. cbn. rewrite !Rmult_0_r. reflexivity.
+Qed.
+
 (* The iterations of the solver never increase the error in the energy ((-A)-) norm: for ANY surface xs that solves
    the discrete Poisson problem of the final gradients, |x_out - xs|_A <= |x_0 - xs|_A, whatever itmax and tol
    (exact arithmetic; uses symmetry, semi-definiteness, kernel = constants and the zero sum of the divergence).
@@ -311,6 +364,37 @@ Theorem C16_cg_error_monotone_3d : forall (sc : smooth_cfg) (sm : bool) (sh : sh
    <= err_norm2 _ (all_ix3 sh) (atimes3 Rops sh) xs x0)%R.
 Proof. exact cg_error_monotone3_history. Qed.
 Print Assumptions C16_cg_error_monotone_3d.
+
+(* ... and whenever the solver iterates at all (itmax >= 1, accepted grid, |D| >= EPS) from a surface that does not yet
+   solve the problem, the error STRICTLY decreases: integrate() always improves a non-solution. *)
+Theorem C16_cg_error_strict_decrease_2d : forall (sc : smooth_cfg) (sm : bool) (sh : shape2 (T:=R)) (st0 : state2 (T:=R))
+    (pre h : list ((Z * Z) * (R * R))) (itmax : nat) (tol : R) (x0 : Z * Z -> R) (err0 : R) (xs : Z * Z -> R),
+  (0 < nxg sh)%Z -> (0 < nyg sh)%Z -> wx sh <> 0%R -> wy sh <> 0%R -> Forall (fun e => in_grad2 sh (fst e)) h ->
+  let st := run2 Rops sc sm sh (set_div2 Rops sc sm sh (preload2 Rops st0 pre)) h in
+  let D := div_value2 Rops sc sm sh st in
+  shape_ok2 sh = true ->
+  (forall q, in_pmf2 sh q -> atimes2 Rops sh xs q = D q) ->
+  (cg_eps Rops <= l2norm Rops _ (all_ix2 sh) D)%R ->
+  (exists q, in_pmf2 sh q /\ (D q - atimes2 Rops sh x0 q)%R <> 0%R) ->
+  (err_norm2 _ (all_ix2 sh) (atimes2 Rops sh) xs (out_x _ (integrate2 Rops sh (S itmax) tol (dv2 st) x0 err0))
+   < err_norm2 _ (all_ix2 sh) (atimes2 Rops sh) xs x0)%R.
+Proof. exact cg_error_strict2_history. Qed.
+Print Assumptions C16_cg_error_strict_decrease_2d.
+
+Theorem C16_cg_error_strict_decrease_3d : forall (sc : smooth_cfg) (sm : bool) (sh : shape3 (T:=R)) (st0 : state3 (T:=R))
+    (pre h : list ((Z * Z * Z) * (R * R * R))) (itmax : nat) (tol : R) (x0 : Z * Z * Z -> R) (err0 : R) (xs : Z * Z * Z -> R),
+  (0 < mxg sh)%Z -> (0 < myg sh)%Z -> (0 < mzg sh)%Z -> vx sh <> 0%R -> vy sh <> 0%R -> vz sh <> 0%R ->
+  Forall (fun e => in_grad3 sh (fst e)) h ->
+  let st := run3 Rops sc sm sh (set_div3 Rops sc sm sh (preload3 Rops st0 pre)) h in
+  let D := div_value3 Rops sc sm sh st in
+  shape_ok3 sh = true ->
+  (forall q, in_pmf3 sh q -> atimes3 Rops sh xs q = D q) ->
+  (cg_eps Rops <= l2norm Rops _ (all_ix3 sh) D)%R ->
+  (exists q, in_pmf3 sh q /\ (D q - atimes3 Rops sh x0 q)%R <> 0%R) ->
+  (err_norm2 _ (all_ix3 sh) (atimes3 Rops sh) xs (out_x _ (integrate3 Rops sh (S itmax) tol (dv3 st) x0 err0))
+   < err_norm2 _ (all_ix3 sh) (atimes3 Rops sh) xs x0)%R.
+Proof. exact cg_error_strict3_history. Qed.
+Print Assumptions C16_cg_error_strict_decrease_3d.
 
 (* a Poisson problem with a solution (premise of the two theorems above): A (-b22) = b22 on the 2x2 grid *)
 Example C16_example_solution_exists : forall q, In q (all_ix2 sh22) -> atimes2 Rops sh22 (fun p => (0 + -1 * b22 p)%R) q = b22 q.
